@@ -57,6 +57,9 @@ const (
 	SYS_EPOLL_WAIT  = unix.SYS_EPOLL_WAIT
 	SYS_EPOLL_PWAIT = unix.SYS_EPOLL_PWAIT
 
+	SHUT_RD      = unix.SHUT_RD
+	SHUT_WR      = unix.SHUT_WR
+	SHUT_RDWR    = unix.SHUT_RDWR
 	MSG_CTRUNC   = unix.MSG_CTRUNC
 	MSG_DONTWAIT = unix.MSG_DONTWAIT
 	MFD_CLOEXEC  = unix.MFD_CLOEXEC
